@@ -355,10 +355,10 @@ class Comparer(object):
     def guarded_expr(self, a, b):
         """compare a controlling expression; a difference is recorded and the walk continues into the bodies"""
         if self.trial:
-            return self.expr(a, b)
+            return self.expr(a, b, False, True)
         snap = self.snapshot()
         try:
-            self.expr(a, b)
+            self.expr(a, b, False, True)
         except Mismatch as m:
             self.restore(snap)
             self.record(m.a, m.b, m.why)
@@ -434,9 +434,11 @@ class Comparer(object):
             return
         self.guarded_expr(a, b)
 
-    def expr(self, a, b, in_message=False):
+    def expr(self, a, b, in_message=False, boolean=False):
         self.nodes += 1
         a, b = strip_trivial(a), strip_trivial(b)
+        if boolean and a.k != b.k or (boolean and a.k == 'Binary' and a.a.get('op') != b.a.get('op')):
+            a, b = _unbool(a), _unbool(b)       # `x != 0` and `x` are the same test where only truth matters
         for _ in range(4):      # locals that merely name a pure sub-expression in one variant (hoisting) are looked through
             if a.k == 'Ref' and a.a.get('id') in self.subst_a:
                 a = strip_trivial(self.subst_a[a.a['id']])
@@ -491,27 +493,28 @@ class Comparer(object):
         elif k in ('Unary',):
             if a.a['op'] != b.a['op'] or bool(a.a.get('postfix')) != bool(b.a.get('postfix')):
                 self.fail(a, b, 'different operator (%s vs %s)' % (a.a['op'], b.a['op']))
-            self.expr(a.c[0], b.c[0], in_message)
+            self.expr(a.c[0], b.c[0], in_message, a.a['op'] == '!')
         elif k in ('Binary', 'Assign'):
             if a.a['op'] != b.a['op']:
                 self.fail(a, b, 'different operator (%s vs %s)' % (a.a['op'], b.a['op']))
+            bl = a.a['op'] in ('&&', '||')
             if a.a['op'] in COMMUTATIVE:
                 snap = (dict(self.ab), dict(self.ba))
                 try:
-                    self.expr(a.c[0], b.c[0], in_message)
-                    self.expr(a.c[1], b.c[1], in_message)
+                    self.expr(a.c[0], b.c[0], in_message, bl)
+                    self.expr(a.c[1], b.c[1], in_message, bl)
                     return
                 except Mismatch as first:
                     self.ab, self.ba = snap
                     try:
-                        self.expr(a.c[0], b.c[1], in_message)
-                        self.expr(a.c[1], b.c[0], in_message)
+                        self.expr(a.c[0], b.c[1], in_message, bl)
+                        self.expr(a.c[1], b.c[0], in_message, bl)
                         return
                     except Mismatch:
                         self.ab, self.ba = dict(snap[0]), dict(snap[1])
                         raise first
-            self.expr(a.c[0], b.c[0], in_message)
-            self.expr(a.c[1], b.c[1], in_message)
+            self.expr(a.c[0], b.c[0], in_message, bl)
+            self.expr(a.c[1], b.c[1], in_message, bl)
         elif k == 'Call':
             na = callee_name(a)
             nb = callee_name(b)
@@ -545,6 +548,15 @@ class Comparer(object):
                 self.fail(a, b, 'different shape')
             for x, y in zip(a.c, b.c):
                 self.expr(x, y, in_message)
+
+
+def _unbool(e):
+    if e.k == 'Binary' and e.a.get('op') == '!=':
+        for i in (0, 1):
+            z = strip(e.c[i])
+            if z.k == 'Int' and z.a.get('value') == 0 and not any(w in (strip(e.c[1 - i]).t or '') for w in ('double', 'float')):
+                return strip_trivial(e.c[1 - i])
+    return e
 
 
 def strip_trivial(e):
